@@ -72,13 +72,23 @@ def poison_suite(ctx, rnd, thorough):
               Case(proggen.gen_program(rnd, 8, 14, faults=False)[0]).lines,
               [" ORG $0E00\n", " INCLUDE lib.asm\n", "START LDA #1\n", " JMP DONE\n", " BRA LIBTOP\n"],
               [" ORG $2000\n", "VERYLONGLABELNAME1 NOP \n", " LDX #VERYLONGLABELNAME1\n", " INCLUDE lib.asm\n", " JMP DONE\n", " LDA LIBTOP,PCR\n"],
-              [" ORG $0100\n", "A1 LEAX A3,PCR\n", " RMB 120\n", "A2 LDA A1,PCR\n", "A3 LBRA A1\n", " FCC /text/\n", " FDB $1234,5\n"]]
+              [" ORG $0100\n", "A1 LEAX A3,PCR\n", " RMB 120\n", "A2 LDA A1,PCR\n", "A3 LBRA A1\n", " FCC /text/\n", " FDB $1234,5\n"],
+              [" FDB 17,34,51\n", " FCB 1,2\n", " PSHS X,Y\n", " TFR A,B\n", " EXG D,X\n", " PULU A,B\n", " FCC /A B/\n"],
+              [" ORG $3000\n", "START NOP \n", " LDX #TABLE+2\n", " LDA TABLE+1\n", " JMP [TABLE]\n", " LDB #COUNT*2\n", " RMB 3\n", "TABLE FCB 1,2,3\n", "COUNT EQU 4\n"]]
     firsts = []
     n = 6000 if thorough else 1200
     bad, _ = asmgen.table(ctx.tier, "invalid")
     base = [README] + [Case(proggen.gen_program(rnd, 4, 10)[0]).lines for _ in range(20)]
     for k in range(n):
-        c = k % 4
+        c = k % 5
+        if c == 4:
+            # the probes' own LINES in a different layout (lines inserted, origin moved, an EQU changed, list text moved to the other directive):
+            # anything remembered per source line / operand text / file name by an earlier program must not leak into the probe
+            m = list(rnd.choice(probes))
+            for _j in range(rnd.randint(1, 3)):
+                m.insert(rnd.randrange(len(m) + 1), rnd.choice([" NOP \n", " RMB 7\n", " FCB 17,34,51\n", " FDB 1,2\n", " TFR X,Y\n", " PSHS A,B\n", " EXG A,B\n", " PSHU D,X\n", " ORG $5000\n", "COUNT EQU 9\n"]))
+            firsts.append(m)
+            continue
         if c == 0:
             firsts.append(asmcheck.framed(rnd.choice(bad), "invalid").lines)                   # an ill-typed statement of the spec's table, in a frame
         elif c == 1:
